@@ -515,6 +515,11 @@ func mixedScenarios(tier string, f func(r *mrepo.Repo, special map[string]mrepo.
 				if shape%2 == 1 {
 					// a reference straight at a blob that the trees may contain as well
 					r.SetRef("refs/tags/lwblob", lv.BlobA)
+				} else {
+					// a replace reference: an ordinary reference as far as a scan with
+					// --no-replace-objects is concerned; its target is reachable from
+					// nothing else
+					r.SetRef("refs/replace/"+string(c0), nc)
 				}
 				var tA, tB mrepo.ID
 				switch tagcfg {
@@ -1034,10 +1039,22 @@ func c09Layouts(sh *explore.Shard, sc *gen.Scenario) {
 	}
 	want := oracle.Compute(sc.Repo, sc.Roots()).Numbers()
 	var first []byte
-	steps := [][]string{nil, {"pack-refs", "--all"}, {"repack", "-a", "-d", "-q"}, {"gc", "-q"}, {"gc", "-q", "--aggressive", "--prune=now"}, {"repack", "-a", "-d", "-q", "-f", "--depth=1"}}
+	steps := [][]string{nil, {"pack-refs", "--all"}, {"repack", "-a", "-d", "-q"}, {"gc", "-q"}, {"gc", "-q", "--aggressive", "--prune=now"}, {"repack", "-a", "-d", "-q", "-f", "--depth=1"},
+		{"(mark every pack as a promisor pack)"}}
 	for _, st := range steps {
 		layout := "loose"
-		if st != nil {
+		if st != nil && strings.HasPrefix(st[0], "(") {
+			// how git stores what it fetched from a partial-clone remote: the pack
+			// has a .promisor file next to it
+			layout = st[0]
+			packs, _ := filepath.Glob(filepath.Join(gd, "objects", "pack", "pack-*.pack"))
+			if len(packs) == 0 {
+				continue
+			}
+			for _, pk := range packs {
+				os.WriteFile(strings.TrimSuffix(pk, ".pack")+".promisor", nil, 0o644)
+			}
+		} else if st != nil {
 			layout = strings.Join(st, " ")
 			if out, err := realgit.RunPlain(gd, []string{"GIT_DIR=" + gd}, st...); err != nil {
 				sh.C.Notes = append(sh.C.Notes, "git "+layout+" failed: "+string(out))
